@@ -377,6 +377,7 @@ fn tx_items(role: Role, tx: &[u8]) -> String {
                 };
                 out.push(item);
             }
+            t if t >= 0x21 && (t - 0x21) % 0x1f == 0 => out.push("g".into()),
             t => out.push(format!("x{}", t)),
         }
     }
@@ -408,10 +409,12 @@ struct Outcome {
     conn: String,
 }
 
-fn run_case(role: Role, reqs: &[ReqSpec], sched: &[&str]) -> Outcome {
+fn run_case(role: Role, reqs: &[ReqSpec], sched: &[&str], grease: bool, unk: bool) -> Outcome {
     let n = reqs.len();
     let side = if role == Role::Server { Side::Server } else { Side::Client };
     let w = World::new(side, 1000, 1000, None);
+    // a STOP_SENDING seen while finishing is reported: as StreamTerminated, or (h3-quinn) as a transport-specific error
+    assert!(apply_event(&w, if unk { "ZU" } else { "ZS" }));
     let mut ex = Exec::new();
     let obs: Vec<ObsRef> = (0..n).map(|_| Rc::new(RefCell::new(Obs::default()))).collect();
     let mut next_ev = vec![0usize; n];
@@ -436,7 +439,7 @@ fn run_case(role: Role, reqs: &[ReqSpec], sched: &[&str]) -> Outcome {
             driver = ex.spawn(async move {
                 let mut conn: h3::server::Connection<SimConn, Bytes> = match h3::server::builder()
                     .max_field_section_size(MAX_FIELD_SECTION)
-                    .send_grease(false)
+                    .send_grease(grease)
                     .build(SimConn { world: w2 })
                     .await
                 {
@@ -463,7 +466,7 @@ fn run_case(role: Role, reqs: &[ReqSpec], sched: &[&str]) -> Outcome {
             let b = ex.spawn(async move {
                 match h3::client::builder()
                     .max_field_section_size(MAX_FIELD_SECTION)
-                    .send_grease(false)
+                    .send_grease(grease)
                     .build::<_, _, Bytes>(SimConn { world: w2 })
                     .await
                 {
@@ -644,7 +647,7 @@ fn touches(j: usize, a: &str) -> bool {
 
 fn main() {
     run_lines(|ws| match ws {
-        ["sf", role, rs, sc] if rs.starts_with("r=") && sc.starts_with("sched=") => {
+        ["sf", role, cf, rs, sc] if cf.starts_with("cfg=") && rs.starts_with("r=") && sc.starts_with("sched=") => {
             let role = match *role {
                 "s" => Role::Server,
                 "c" => Role::Client,
@@ -662,11 +665,15 @@ fn main() {
                 }
             }
             let sched: Vec<&str> = if &sc[6..] == "-" { vec![] } else { sc[6..].split(',').collect() };
-            let full = run_case(role, &reqs, &sched);
+            // cfg=g<i|->,u<0|1>: which request carries the connection's grease frame (- = grease off); finish error kind
+            let mut it = cf[4..].split(',');
+            let holder: Option<usize> = it.next().and_then(|x| x.strip_prefix('g')).and_then(|x| x.parse().ok());
+            let unk = it.next() == Some("u1");
+            let full = run_case(role, &reqs, &sched, holder.is_some(), unk);
             let mut diffs: Vec<String> = Vec::new();
             for j in 0..reqs.len() {
                 let sj: Vec<&str> = sched.iter().copied().filter(|a| touches(j, a)).collect();
-                let solo = run_case(role, &reqs, &sj);
+                let solo = run_case(role, &reqs, &sj, holder == Some(j), unk);
                 if solo.reqs[j] != full.reqs[j] {
                     diffs.push(j.to_string());
                 }
